@@ -20,7 +20,8 @@ def setup(C):
     os.makedirs(d)
     # libc model vs libc
     names = ('strlen strchr strrchr strcmp strncmp strcpy strcat strstr isdigit islower isupper isalpha isalnum isspace isprint '
-             'tolower toupper abs strtol atoi memcmp stpcpy memchr isxdigit ispunct iscntrl').split()
+             'tolower toupper abs strtol atoi memcmp stpcpy memchr isxdigit ispunct iscntrl strspn strcspn strpbrk strncpy strncat strnlen strdup strndup '
+             'memrchr isblank isgraph strtoul strcasecmp strncasecmp memccpy bcmp').split()
     C.must(['gcc', '-O1', '-fno-builtin', '-w', '-c', os.path.join(C.ENG, 'libc_model.c'), '-o', os.path.join(d, 'm.o')] +
            ['-D%s=m_%s' % (n, n) for n in names])
     C.must(['gcc', '-O1', '-fno-builtin', '-w', os.path.join(C.ENG, 'libc_cmp.c'), os.path.join(d, 'm.o'), '-o', os.path.join(d, 'cmp')])
